@@ -156,6 +156,72 @@ fn case_typed<S: Spec>(sub: &str, id: u64, steps: u64, r: &mut Report) {
         // every state-advancing operation (next_u32, next_u64, fill_bytes of any
         // length) moves the state exactly along the cycle: after an operation that
         // consumes k native words the state equals the k-fold native successor
+        // jump()/long_jump() move along the SAME cycle: they commute with a single step,
+        // never reach the zero state and never merge two states — also from states whose
+        // IMAGE under the jump is structured (pre-images under the observed jump matrix)
+        // and from word-coincidence states (see c06::coincidence_state)
+        "jump_on_cycle" => {
+            if !S::HAS_JUMP { return; }
+            use crate::models::gf2::BitVec;
+            let ti = TYPE_NAMES.iter().position(|n| *n == S::NAME).unwrap();
+            let reduced = crate::util::REDUCED.load(std::sync::atomic::Ordering::Relaxed);
+            let mut images: std::collections::HashMap<(bool, Vec<u8>), Vec<u8>> = std::collections::HashMap::new();
+            let zero_img = vec![0u8; S::SEED_LEN];
+            for k in 0..24 {
+                let (mut class, mut s) = gen_seed(&mut p, S::SEED_LEN, wb, false);
+                if !reduced {
+                    let o = super::c06::oracle_for(ti, r);
+                    match k % 4 {
+                        0 | 1 => {
+                            // also the pre-image of the documented zero-seed replacement
+                            if k % 8 == 0 { s = crate::drive::preset_block(S::NAME, S::SEED_LEN); }
+                            if let Some(inv) = if k % 4 == 0 { &o.j_inv } else { &o.l_inv } {
+                                let v = inv.apply(&BitVec::from_bytes(&s)).to_bytes();
+                                if v != zero_img { s = v; class = "preimage_of_structured_under_jump"; }
+                            }
+                        }
+                        2 => {
+                            if let Some((v, name)) = super::c06::coincidence_state(&o, S::SEED_LEN, wb, &mut p) { s = v; class = name; }
+                        }
+                        _ => {}
+                    }
+                }
+                for long in [false, true] {
+                    let jm = |g: &mut S::R| if long { S::long_jump(g) } else { S::jump(g) };
+                    let mut a = inject::<S>(&s);
+                    jm(&mut a);
+                    let ja = image::<S>(&a);
+                    r.eval();
+                    if ja == zero_img {
+                        r.violation(format!("{}:zero_state_reached_by_jump", S::NAME), sub, id, json!({"type": S::NAME, "state": hex(&s), "long_jump": long, "state_class": class}));
+                        return;
+                    }
+                    // step then jump == jump then step
+                    native_step::<S>(&mut a);
+                    let mut b = inject::<S>(&s);
+                    native_step::<S>(&mut b);
+                    jm(&mut b);
+                    r.eval();
+                    if image::<S>(&a) != image::<S>(&b) {
+                        r.violation(format!("{}:jump_leaves_the_cycle(step_commutation)", S::NAME), sub, id, json!({
+                            "type": S::NAME, "state": hex(&s), "long_jump": long, "state_class": class,
+                            "step(jump(s))": hex(&image::<S>(&a)), "jump(step(s))": hex(&image::<S>(&b))}));
+                        return;
+                    }
+                    r.eval();
+                    if let Some(prev) = images.insert((long, ja.clone()), s.clone()) {
+                        if prev != s {
+                            r.violation(format!("{}:jump_merges_distinct_states", S::NAME), sub, id, json!({
+                                "type": S::NAME, "long_jump": long, "state_a": hex(&prev), "state_b": hex(&s), "common_image": hex(&ja)}));
+                            return;
+                        }
+                    }
+                }
+                r.cov(&format!("jump_on_cycle_class:{}", if class.starts_with("coincidence") { "coincidence" } else if class.starts_with("preimage") { "preimage" } else { "other" }));
+            }
+            r.cov(&format!("jump_on_cycle:{}", S::NAME));
+            r.distinct(hkey(&[&"jump_on_cycle", &S::NAME, &id]));
+        }
         "mixed_ops" => {
             use super::c05::{apply, PFam, Proj};
             let (class, s) = gen_seed(&mut p, S::SEED_LEN, wb, false);
@@ -262,6 +328,9 @@ pub fn run(ctx: &Ctx, only: Option<&Only>) -> Report {
         total.floor("jump_race", 40);
     }
     total.merge(drive(ctx, "mixed_ops", ctx.n(6_000, 6_000), secs * 0.1, |id, r| case("mixed_ops", id, 0, r)));
+    total.merge(drive(ctx, "jump_on_cycle", ctx.n(1_200, 1_200), secs * 0.05, |id, r| case("jump_on_cycle", id, 0, r)));
+    total.floor("jump_on_cycle_class:preimage", 1_000);
+    total.floor("jump_on_cycle_class:coincidence", 500);
     for &ti in &LINEAR_TYPES {
         total.floor(&format!("api_seeded:{}", TYPE_NAMES[ti]), 10);
         total.floor(&format!("mixed_ops:{}", TYPE_NAMES[ti]), 50);
